@@ -812,6 +812,20 @@ func Check(rs *RuleSet, c Call, out Outcome, cleared bool) []Finding {
 	if c.IsSelected() {
 		S, _ = selection(rs, c.Names)
 	}
+	if c.DupNames {
+		// only decided: nothing outside the selection runs
+		v.noneOutside(idSet(S), ClSelect, "not named in the (duplicate-carrying) selection")
+		return v.f
+	}
+	switch method {
+	case MNSortMConc, MNConcMSort, MNConcMConc:
+		if c.N < 1 || c.M < 1 || c.N+c.M > len(all) {
+			// an invalid split of an un-selected N-M call: what it does is not stated, but the
+			// result map still is exactly the rules that returned in this call
+			v.resultClause(out.Result)
+			return v.f
+		}
+	}
 	switch method {
 	case MExecute:
 		v.rowSort(all, b, false, nil, err)
